@@ -127,6 +127,8 @@ var libAxioms = map[string]libAx{
 		// failure returns 0 (documented: the zero value on syntax error; range errors return max/min – we only claim the syntax case through err)
 	}},
 	"strconv.Atoi#1": {[]string{"strconv.Atoi#0", "numval"}, []string{
+		// digit strings of at most 18 digits always parse (they are below 2^63)
+		"(assert (forall ((s Str)) (! (=> (and (L_isdigits s) (<= (str_len s) 18)) (= (L_strconv_Atoi_1 s) err_nil)) :pattern ((L_strconv_Atoi_1 s)))))",
 		// a successful Atoi of a digit string returns its value
 		"(assert (forall ((s Str)) (! (=> (and (L_isdigits s) (= (L_strconv_Atoi_1 s) err_nil)) (= (L_strconv_Atoi_0 s) (L_numval s))) :pattern ((L_strconv_Atoi_1 s)))))",
 		"(assert (forall ((s Str)) (! (=> (= (str_len s) 0) (not (= (L_strconv_Atoi_1 s) err_nil))) :pattern ((L_strconv_Atoi_1 s)))))",
